@@ -78,7 +78,7 @@ def drive_corrupt(item):
   """every single-byte corruption of one frame, as is and with checksums re-computed"""
   desc, values = item[0], item[1]
   reseal = item[2] if len(item) > 2 else True
-  st = [[x["k"], x["v"]] for x in desc["st"]]
+  st = F.expand(desc)
   frame, lay = F.build(st, desc["plen"], desc["pad"])
   bag = Bag()
   n = 0
@@ -96,7 +96,8 @@ def drive_corrupt(item):
         variants.append(("resealed", s))
       for tag, data in variants:
         ev, det = record(data)
-        bag.add(ev, det, dict(kind="corrupt", st=desc["st"], plen=desc["plen"], pad=desc["pad"], pos=pos,
+        bag.add(ev, det, dict(kind="corrupt", st=desc["st"], unit=desc.get("unit", []), n=desc.get("n", 0),
+                              post=desc.get("post", []), plen=desc["plen"], pad=desc["pad"], pos=pos,
                               value=vn, sealed=tag), data)
         n += 1
   return n, bag.items()
@@ -154,3 +155,46 @@ def drive_random(item):
     ev, det = record(body)
     bag.add(ev, det, dict(kind="random", seed=seed, index=j), body)
   return count, bag.items()
+
+
+def ED(a, desc=None, ks=(), ln=0, starts=(), any_=False, ok=True, total=0):
+  """event of PktGrammarTrace.tla"""
+  d = desc or {}
+  return {"a": a, "st": d.get("st", []), "unit": d.get("unit", []), "n": d.get("n", 0), "post": d.get("post", []),
+          "plen": d.get("plen", 0), "pad": d.get("pad", 0), "cut": d.get("cut", 0), "total": total,
+          "ks": list(ks), "len": ln, "starts": list(starts), "any": any_, "ok": ok}
+
+
+def drive_deep(desc):
+  """one deeply nested frame of the grammar at one truncation length -> (events, details, label)"""
+  frame, lay = F.build(F.expand(desc), desc["plen"], desc["pad"])
+  data = frame[:desc["cut"]]
+  ch = c15_env.channel()
+  rec = ch.offer(data)
+  ev, det = [], {}
+  label = dict(kind="deep", st=desc["st"], unit=desc["unit"], n=desc["n"], post=desc["post"], plen=desc["plen"],
+               cut=desc["cut"], total=len(frame))
+  if "exc" in rec:
+    ev.append(ED("Offer", desc, ok=False, total=len(frame)))
+    det[0] = {"raised": rec["exc"][0], "where": rec["exc"][2], "msg": rec["exc"][1][:120]}
+    return ev, det, label
+  ev.append(ED("Offer", desc, total=len(frame)))
+  top = rec["parsed"]
+  objs, _ = walk(top)
+  ks = [kind_of(o) for o in objs if getattr(o, "parsed", None) is True]
+  if ks:
+    ev.append(ED("Layers", ks=ks))
+  r = observe_rest(top, data)
+  if r["starts"] == "any":
+    ev.append(ED("Rest", ln=0, any_=True))
+  else:
+    ev.append(ED("Rest", ln=r["len"], starts=r["starts"]))
+    if r["len"] < 0 or not r["starts"]:
+      det[len(ev) - 1] = {"raised": "remainder-not-kept" if r["len"] < 0 else "remainder-not-from-frame",
+                          "where": ks[-1] if ks else "-"}
+  for name, f in (("Print", do_print), ("Dump", do_dump), ("Repack", do_pack)):
+    o = f(top)
+    ev.append(ED(name, ok=o["ok"]))
+    if not o["ok"]:
+      det[len(ev) - 1] = {"raised": o.get("raised", "?"), "where": o.get("where", "?"), "msg": o.get("msg", "")}
+  return ev, det, label
